@@ -70,6 +70,16 @@ def m_strip_prefix(em, e, rt, rty, env, k):
     return k("(str_strip_prefix %s %d)" % (rt, char_arg(e, "str::strip_prefix")), ("opt", STR), env)
 
 
+def m_split_at(fn):
+    """`s.split_at(mid)` = (&s[..mid], &s[mid..]); panics past the end / off a char boundary (Model/Text.v): both
+    pieces are byte strings (StrB), like a slice of a str"""
+    def h(em, e, rt, rty, env, k):
+        if len(e.args) != 1:
+            raise EmitError("str::split_at takes one argument")
+        return em.expr(e.args[0], env, lambda m, _ty, env1: em.bind("%s %s %s" % (fn, rt, m), ("tuple", (STRB, STRB)), env1, k, hint="sp"))
+    return h
+
+
 def pure_closure(em, e, rty, env, what):
     """one-parameter closure without effects -> (Gallina function text, result type)"""
     if len(e.args) != 1 or e.args[0].kind != "closure" or len(e.args[0].params) != 1:
@@ -128,6 +138,25 @@ def m_into_iter(em, e, rt, rty, env, k):
 def m_res_ok(em, e, rt, rty, env, k):
     noargs(e, "Result::ok")
     return k("(res_ok %s)" % rt, ("opt", rty[1]), env)
+
+
+def m_res_map_err(em, e, rt, rty, env, k):
+    """`r.map_err(|e| <pure expression>)` (`|_| ()`): the Ok value is kept, the error goes through the closure"""
+    if len(e.args) != 1 or e.args[0].kind != "closure" or len(e.args[0].params) != 1:
+        raise EmitError("Result::map_err needs a one-parameter closure")
+    cl = e.args[0]
+    p = cl.params[0][0]
+    c = em.fresh("e")
+    if p.kind == "pwild":
+        env1 = env
+    elif p.kind == "pident":
+        env1 = env.bind(p.name, c, rty[2])
+    else:
+        raise EmitError("Result::map_err: closure parameter pattern")
+    pr = em.try_pure(cl.body, env1)
+    if pr is None:
+        raise EmitError("Result::map_err: the closure can panic or assigns a captured variable")
+    return k("(res_map_err (fun %s => %s) %s)" % (c, pr[0], rt), RES(rty[1], pr[1]), env)
 
 
 def m_into_color(em, e, rt, rty, env, k):
@@ -238,13 +267,15 @@ def vocab(gm, area):
         "reserved": ["result", "Ok", "Err", "k", "next"],
         "result": {"coq": "result", "ok": "Ok", "err": "Err"},
         "no_transparent": ("into",),
+        "closure_unit_state": True,     # `fun x (_ : unit) => ..`: a closure whose every call was inlined is never applied
         "type_alias": {"str": STR, "String": STR, "Color": COLOR, "Error": ("coq", "git_error")},
         "enums": {
             "AnsiColor": {"coq": "tcolor", "eqb": "color_eqb", "variants": {n: "(TAnsi %d)" % i for n, i in ansi.items()}},
         },
         "structs": {
-            "Str": dict(nocheck, coq="(list N)", eqb="list_eqb", index_range=("str_slice_cp", STRB)),
-            "StrB": dict(nocheck, coq="(list N)", eqb="list_eqb"),
+            "Str": dict(nocheck, coq="(list N)", eqb="list_eqb", index_range=("str_slice_cp", STRB), index_len="str_len"),
+            # a piece of a str (slice, split_at): its UTF-8 bytes; slicing it again checks the char boundaries too
+            "StrB": dict(nocheck, coq="(list N)", eqb="list_eqb", index_range=("str_slice", STRB)),
             "Effects": dict(nocheck, coq="N", bitor="fx_bitor"),
             "Style": dict(nocheck, coq="tstyle", bitor="style_or_effects"),
             "Ansi256Color": dict(nocheck, coq="tcolor"),
@@ -275,6 +306,7 @@ def vocab(gm, area):
             ("list", "into_iter"): m_into_iter,
             ("iter", "next"): shape("pop_front", "inout", [], ("opt", U8)),
             ("result", "ok"): m_res_ok,
+            ("result", "map_err"): m_res_map_err,
             ("int", "is_ascii_hexdigit"): m_pure("(is_ascii_hexdigit %s)", BOOL, "u8::is_ascii_hexdigit"),
             ("Effects", "insert"): shape("fx_insert", "in", [("in", EFF)], EFF),
             ("Effects", "remove"): shape("fx_remove", "in", [("in", EFF)], EFF),
@@ -299,6 +331,8 @@ def vocab(gm, area):
             ("Str", "strip_prefix"): m_strip_prefix,
             ("Str", "len"): m_pure("(str_len %s)", USZ, "str::len"),
             ("Str", "bytes"): m_pure("(str_bytes %s)", ("list", U8), "str::bytes"),
+            ("Str", "split_at"): m_split_at("str_split_at_cp"),
+            ("StrB", "split_at"): m_split_at("str_split_at"),
         })
     return v
 
